@@ -1863,6 +1863,61 @@ def flatten_stream(ctx, cirq, n):
             ctx.disagree('differential:flatten', bad, f'flatten:{blame}', f'cirq.flatten of\n{safe_str(cs)}\n{bad}', rep)
 
 
+def flatten_sweep_grid(ctx, cirq):
+    """flatten_with_sweep / flatten_with_params on a fixed grid (every seed): values without any symbol (a number, a gate with numeric
+    exponents, an unparameterized circuit), with one symbol, with expressions, with a symbol-free sympy constant, crossed with sweeps of 1, 3
+    and 4 points (Points, Linspace, a product, a sweep over a symbol the value does not mention): the sweep keeps its length, and
+    every flattened value resolved at point k is the original resolved at point k."""
+    import sympy
+    import numpy as np
+    q = cirq.LineQubit.range(2)
+    a, b = sympy.Symbol('a'), sympy.Symbol('b')
+    values = [('a number-only circuit', cirq.Circuit(cirq.X(q[0]) ** 0.25, cirq.CZ(q[0], q[1]) ** 0.5)),
+              ('an unparameterized gate operation', cirq.Circuit(cirq.H(q[0]))),
+              ('one symbol', cirq.Circuit(cirq.X(q[0]) ** a)),
+              ('an expression of one symbol', cirq.Circuit(cirq.X(q[0]) ** (a / 4 + 0.5), cirq.Z(q[1]) ** 0.5)),
+              ('expressions of two symbols', cirq.Circuit(cirq.X(q[0]) ** (a * b), cirq.CZ(q[0], q[1]) ** (a + b))),
+              ('a numeric exponent next to a symbol', cirq.Circuit(cirq.Y(q[0]) ** 0.3, cirq.X(q[1]) ** b)),
+              ('an empty circuit', cirq.Circuit())]
+    sweeps = [('Points a x1', cirq.Points('a', [0.25])), ('Points a x3', cirq.Points('a', [0.0, 0.5, 1.5])), ('Linspace b x4', cirq.Linspace('b', 0, 1, 4)),
+              ('Points a x Points b', cirq.Points('a', [0.5, 1.0]) * cirq.Points('b', [0.25, 0.75])), ('Zip a b', cirq.Zip(cirq.Points('a', [0.1, 0.2, 0.3]), cirq.Points('b', [1, 2, 3]))),
+              ('the unit sweep', cirq.UnitSweep)]
+    for vname, val in values:
+        for sname, sw in sweeps:
+            ctx.count('flatten_sweep_grid', [vname, sname], True, sample=dict(value=vname, sweep=sname))
+            rep = dict(kind='flatten_grid', value=vname, sweep=sname)
+            try:
+                flat, sw2 = cirq.flatten_with_sweep(val, sw)
+                pts, pts2 = list(sw), list(sw2)
+                bad = None
+                if len(pts2) != len(pts) or len(sw2) != len(sw):
+                    bad = f'the sweep had {len(pts)} points, the transformed sweep has {len(pts2)} (len() says {len(sw2)})'
+                else:
+                    for k, (r, r2) in enumerate(zip(pts, pts2)):
+                        want = cirq.resolve_parameters(val, r)
+                        got = cirq.resolve_parameters(flat, r2)
+                        missing = set(cirq.parameter_names(val)) - set(r.param_dict)
+                        if missing:
+                            continue            # the sweep does not bind every symbol: nothing numeric to compare at this point
+                        if cirq.is_parameterized(got) and cirq.parameter_names(got):
+                            bad = f'point {k}: the flattened value is still parameterized by {sorted(cirq.parameter_names(got))}'
+                            break
+                        if not np.allclose(cirq.unitary(eval_constants(cirq, got)) if len(got) else 1, cirq.unitary(eval_constants(cirq, want)) if len(want) else 1, atol=1e-8):
+                            bad = f'point {k} ({dict(r.param_dict)}): the flattened value resolved with the transformed point differs from the original resolved with the point'
+                            break
+                if bad is None and isinstance(sw, cirq.Points) and len(pts) == 1 and not (set(cirq.parameter_names(val)) - set(pts[0].param_dict)):
+                    flat3, r3 = cirq.flatten_with_params(val, pts[0])
+                    if not np.allclose(cirq.unitary(eval_constants(cirq, cirq.resolve_parameters(flat3, r3))) if len(val) else 1,
+                                       cirq.unitary(eval_constants(cirq, cirq.resolve_parameters(val, pts[0]))) if len(val) else 1, atol=1e-8) and \
+                            not (set(cirq.parameter_names(val)) - set(pts[0].param_dict)):
+                        bad = 'flatten_with_params: the flattened value resolved with the transformed assignment differs'
+            except Exception as ex:
+                bad = f'raised {type(ex).__name__}: {ex}'[:300]
+            if bad:
+                ctx.violation(f'flatten_grid:{"symbol-free" if not cirq.parameter_names(val) else "symbolic"}',
+                              f'cirq.flatten_with_sweep({vname}, {sname}): {bad}', rep)
+
+
 def eval_constants(cirq, circuit):
     """flatten leaves numbers alone, sympy constants included, and resolving with an empty assignment is the identity; a
     symbol-free sympy parameter is evaluated by any non-empty resolution, so do one (it changes no value)."""
@@ -2180,6 +2235,7 @@ def run(ctx):
     simulate_stream(ctx, cirq, 25 if quick else 300)
     run_sweep_stream(ctx, cirq, 25 if quick else 300)
     flatten_stream(ctx, cirq, 40 if quick else 500)
+    flatten_sweep_grid(ctx, cirq)
 
 
 def eval_ns(cirq):
